@@ -65,7 +65,7 @@ fn run_case(rng: &mut Rng, clean: bool) -> Case {
         ctor_checks: 0,
     };
     // every eighth sequence is long (stale tickets pile up)
-    let n_ops = if rng.chance(1, 8) { 150 + rng.usize_below(250) } else { 1 + rng.usize_below(60) };
+    let n_ops = if rng.chance(1, 6) { 150 + rng.usize_below(500) } else { 1 + rng.usize_below(60) };
     let max_live = 1 + rng.usize_below(8);
     for _ in 0..n_ops {
         clock += 1;
